@@ -91,7 +91,7 @@ def qeNum : Num QE where
       else if k ≥ 0 then pure (QE.mk' (ratPowNat x.q k.toNat) (x.rep && y.rep))
       else pure (QE.mk' (1 / ratPowNat x.q (-k).toNat) (x.rep && y.rep))
     else if x.q == 1 then pure ⟨1, x.rep && y.rep⟩
-    else if y.q.num == 1 && x.q > 0 && x.q != eRat then
+    else if y.q.num == 1 && y.q.den ≤ 64 && x.q > 0 && x.q != eRat then
       -- x ** (1/n) at an exact n-th power
       match iroot y.q.den x.q.num.natAbs, iroot y.q.den x.q.den with
       | some a, some b => pure (QE.mk' (mkRat a b) x.rep)
